@@ -14,6 +14,7 @@ import (
 	"github.com/cloudflare/circl/internal/verifref/c09ref"
 	"github.com/cloudflare/circl/internal/verifref/ecurve"
 	"github.com/cloudflare/circl/internal/verifref/fpx"
+	"github.com/cloudflare/circl/math/fp448"
 )
 
 func TestVerifC09_goldilocks(t *testing.T) {
@@ -22,10 +23,29 @@ func TestVerifC09_goldilocks(t *testing.T) {
 	r.Rule("57-byte strings: [a]G for a in {0,1,2,3,n-1,(n+1)/2,5 SHAKE values} (reference and library), all 456 single-bit flips of 4 (quick) / 11 (thorough) of them, " +
 		"the 4 torsion points alone and added to [s0]G, x=0 with sign bit, y = p+j and 2^448-1-j (j<8) with both signs, y+p aliases of the torsion points, " +
 		"all 127 non-zero values of the 7 unused bits of the last byte on [1]G with both signs (3 values on two more bases), y without x; " +
-		"through FromBytes and Point.UnmarshalBinary; distinct = distinct (entry point, input bytes)")
+		"every curve point with x or y in {0,+-1,+-j (j<64)} and the small-order points, built by the reference, made with FromAffine and marshalled by the library (must decode again); " +
+		"through FromBytes and Point.UnmarshalBinary, the latter also into an object that already holds the nearest valid value, and before it; distinct = distinct (entry point, input bytes)")
 	c := ecurve.Edwards448()
-	cases := c09ref.RFC8032Cases(c, c09ref.EdOptions{FlipBases: r.Pick(4, 11)})
+	cases := c09ref.RFC8032Cases(c, c09ref.EdOptions{FlipBases: r.Pick(4, 11), Special: 64})
 	var curve goldilocks.Curve
+	// constructed special points (x or y in {0, +-1, +-j, j<64}; the 4 small-order points), made by the library
+	// from the reference's coordinates with FromAffine and marshalled by it
+	for _, sp := range c09ref.EdSpecial(c, 64) {
+		var x, y fp448.Elt
+		copy(x[:], fpx.ToLE(sp.P.X.A, 56))
+		copy(y[:], fpx.ToLE(sp.P.Y.A, 56))
+		P, err := goldilocks.FromAffine(&x, &y)
+		if err != nil {
+			r.Violation("C09|goldilocks.FromAffine|refuses-curve-point|special", "goldilocks.FromAffine|"+sp.Name,
+				"FromAffine refuses a point of the curve: "+sp.P.String(), nil)
+			continue
+		}
+		enc, err := P.MarshalBinary()
+		if err != nil {
+			t.Fatal(err)
+		}
+		cases = append(cases, c09ref.Case{Name: "speciallib/" + sp.Name, Class: "special-lib", Data: enc})
+	}
 	for _, s := range c09ref.Scalars(c.N) {
 		var k goldilocks.Scalar
 		k.FromBytes(fpx.ToLE(s.V, 56))
@@ -43,8 +63,9 @@ func TestVerifC09_goldilocks(t *testing.T) {
 		r.Eval(1)
 	}
 	dec := make([]verifmc.DecCase, len(cases))
+	bases := c09ref.Bases(cases)
 	for i, cs := range cases {
-		dec[i] = verifmc.DecCase{Name: cs.Name, Class: cs.Class, Data: cs.Data}
+		dec[i] = verifmc.DecCase{Name: cs.Name, Class: cs.Class, Data: cs.Data, Base: bases[i]}
 	}
 	ref := func(in []byte) verifmc.DecOracle {
 		v := c09ref.RFC8032Verdict(c, in)
@@ -77,6 +98,15 @@ func TestVerifC09_goldilocks(t *testing.T) {
 			return observe(P, in, keep)
 		}})
 	r.CheckDecoder(verifmc.DecSpec{Entry: "goldilocks.Point.UnmarshalBinary", Cases: dec, Ref: ref,
+		Seq: func(first, second []byte) verifmc.DecResult {
+			var P goldilocks.Point
+			verifmc.Try(func() { _ = P.UnmarshalBinary(first) }) // a refusal dereferences nil (C10's finding); the object is then untouched
+			keep := c09ref.Clone(second)
+			if err := P.UnmarshalBinary(second); err != nil {
+				return verifmc.DecResult{}
+			}
+			return observe(&P, second, keep)
+		},
 		Lib: func(in []byte) verifmc.DecResult {
 			keep := c09ref.Clone(in)
 			var P goldilocks.Point
@@ -91,4 +121,6 @@ func TestVerifC09_goldilocks(t *testing.T) {
 	r.RequireCounter("in:torsion", 8)
 	r.RequireCounter("in:valid-lib", 2*11)
 	r.RequireCounter("accepted", 60)
+	r.RequireCounter("in:special-lib", 100)
+	r.RequireCounter("reused_receiver_cases", 1000)
 }
